@@ -80,7 +80,7 @@ Section Frame.
   Definition zero_frame : frame := {| f_type := []; f_id := []; f_payload := None |}.
 
   Definition frame_of_text (text : bytes) : option frame :=
-    match parse_text StdJson numval text with
+    match parse_json StdJson numval text with
     | PTree JNull => Some zero_frame
     | PTree (JObj []) => Some zero_frame
     | PTree (JObj (_ :: _)) =>
